@@ -8,8 +8,11 @@ MANIFEST = {
     "C12": {
         "technique": "Lean 4 proof (simulation between a model of Callback.cpp - three slot states, dirty flag, stack of activation "
                      "frames with next/invalidated - and the snapshot specification, both run by one generic program evaluator; the "
-                     "simulation relation contains the invariant of the two-sided bookkeeping) + differential correspondence model vs "
-                     "real Callback.hpp/.cpp under ASan/UBSan",
+                     "simulation relation contains the invariant of the two-sided bookkeeping) + tie by TRANSLATION (tools/gen_callback.py "
+                     "regenerates the bodies of Callback.cpp and the connect/disconnect/emit templates of Callback.hpp as Lean heap "
+                     "functions from the current sources on every run; theorems translated body = model step; the machine made of the "
+                     "translated code runs as the model for all programs) + differential correspondence model vs real "
+                     "Callback.hpp/.cpp under ASan/UBSan",
         "text": "Theorems, for all programs (top-level actions and slot bodies that connect, disconnect, emit recursively - on the same or "
                 "on other emitters, with other arguments - and destroy or re-create listeners/emitters, their own included, arbitrarily "
                 "nested), all numbers of objects and every fuel of the evaluator, about the Lean model of Callback.cpp: emit_refines (log "
@@ -24,31 +27,54 @@ MANIFEST = {
                 "every activation is destroyed as the innermost one, exactly once), never_after_disconnect_or_destroy (state level) and "
                 "never_invoked_unless_listed (whole runs), bookkeeping_consistent and two_sides_inverse (after every top-level call), "
                 "listener_side_exact (listener-side lists = the live connections in order of birth), terminates and fuel_irrelevant, "
-                "node_is_ghost; all proved in full (no partial statement). The model is tied to the current Callback.hpp/.cpp on every "
+                "node_is_ghost; all proved in full. TIE BY TRANSLATION (PropsTie.lean, PropsTieRun.lean): the bodies of Callback::connect, "
+                "Callback::disconnect, ~Listener, ~Emitter, the SignalActivation constructor and destructor, the nine connect / "
+                "disconnect templates and the loop of the nine emit templates are translated statement by statement from the CURRENT "
+                "sources into functions over the heap operations of Heap.lean (lean/Nstd/Generated/CallbackBody.lean) and proved equal "
+                "to the model's steps on every state that satisfies what the audit implies (tie_connect(T), tie_disconnect(T), "
+                "tie_dtorListener, tie_dtorEmitter, tie_ctorActivation, tie_dtorActivation, tie_emit_next/first/scan); "
+                "translated_code_runs_as_model: for every program, history and fuel the evaluator over the machine made of the "
+                "translated code reaches the same state and writes the same log as over the hand-written model, so the theorems above "
+                "are theorems about the code as written (translated_code_refines_spec). A change of one of these bodies changes the "
+                "generated definition: the equality fails or the translator refuses (broken obligation; the check then searches for a "
+                "failing input). DESTRUCTORS (PropsOrder.lean): dtor_listener_order_irrelevant and dtor_emitter_order_irrelevant - "
+                "visiting the Map keys in any order gives the same state, for every state; destructor_invokes_no_slot. ADDRESS REUSE "
+                "(PropsReuse.lean): reuse_listener_refines_spec - the model in which a re-created listener is constructed at the id "
+                "(address) of its destroyed predecessor refines the specification with the same reuse, for all programs (log, no use "
+                "of freed memory, audit, clean bookkeeping); stale_receiver_never_read - no loop of the model reads receiver/object of "
+                "an entry marked disconnected. The model is also tied to the current Callback.hpp/.cpp on every "
                 "run by executing identical op lines on both (every small program up to renaming + structured cross-emitter programs + "
                 "random programs over all nine arity overloads, heap objects under ASan/UBSan and a second pass with objects "
                 "re-created at exactly the address of their predecessor, white-box bookkeeping of both sides after every top-level "
                 "action); an independent Python implementation of the snapshot specification predicts every log and the bookkeeping "
-                "of the real code and counts the re-entrant situations reached (branch_hits).",
-        "note": "Trusted: Lean kernel + the three standard axioms; hand translation of Callback.cpp into the model (validated by the "
-                "correspondence run, not proved): pointers are ids that are never reused (the harness's reuse mode re-creates objects at "
-                "the address of their predecessor to test exactly this), Map = key list + lookup function, the emission iterator is an "
-                "index into the slot list (or the `end` captured for a list empty at construction), an activation constructed without "
-                "signal data is inert and pushes no frame, the identity (address) of a List node is a number from an allocation counter "
-                "(theorem node_is_ghost: it influences nothing); one model of `emit`/`connect`/`disconnect` stands for the nine arity "
-                "overloads (all nine are instantiated and run by the harness: signal g has g parameters), one number stands for the "
-                "argument tuple (the harness passes v..v+g-1 and checks the tuple in the slot); reference parameters are modelled "
-                "as one cell per emission (signal 9 of the harness: `int&`; `const int&` and `int*` only by the fixed `refargs` line); "
-                "a model that RE-USES object ids is not built (OPEN block in Props.lean; stale_mentions_are_dead_data is the proved "
-                "part, exact address reuse is exercised on the real code by the `reuse` lines); assumed, not proved: the result of "
-                "~Listener / ~Emitter does not depend on the order in which the Map keys (emitter addresses / member-pointer bytes) "
-                "are visited, and member-function pointers of distinct signals/slots have distinct equal-size representations on "
-                "which == and memcmp agree (non-virtual members, no identical-code folding); not modelled: the unchecked cast "
-                "through which emit calls a slot of another class (exercised with a padding base class, receiver address != object address). "
+                "of the real code and counts the re-entrant situations reached (branch_hits); the driver also runs the model with full "
+                "address reuse (execR: listeners and emitters) beside the model on every line and flags any difference (REUSEDIFF).",
+        "note": "Trusted: Lean kernel + the three standard axioms; the translator tools/gen_callback.py (its reading of the C++ subset: "
+                "references/iterators as paths bound at their declaration, stores through the path, `p->member` = existence check, "
+                "`find`/`insert`/`append`/`remove`/`begin`/`end` of Map and List as the heap operations of Heap.lean, search loops as "
+                "findIdx?, for-each loops as foldl over the sequence as it is when the loop starts (refused when the body changes a "
+                "container of that kind), the purge switch as filterMap, Map iteration in the model's insertion order - shown "
+                "immaterial by the order theorems; a value-initialised Slot()/Signal() node has fields 0/connected, every field is "
+                "assigned before it is read) and the representation in Heap.lean: pointers are ids, Map = key list + lookup function, "
+                "`*end()` of the listener's map is the empty list, the emission iterator is an index into the slot list or the `end` "
+                "sentinel of a list that was empty at construction (List.hpp: begin() of an empty list IS end()), an activation "
+                "constructed without signal data is inert and pushes no frame, the identity (address) of a List node is a number from "
+                "an allocation counter (theorem node_is_ghost). What is NOT translated: the Map/List containers themselves (real ones "
+                "run under ASan with their assertions), the member-pointer cast of the call in emit (the translator checks which "
+                "fields are called and that all arguments are passed in order, per arity; executed with a padding base class), "
+                "MemberFuncPtr (ids in the model; the `mfp` line checks on the harness's 10 signal and 20 slot pointers: equal size, "
+                "== iff same member iff equal bytes, < a strict total order; assumed beyond that: non-virtual members, no "
+                "identical-code folding). One number stands for the argument tuple (the harness passes v..v+g-1 and checks the tuple "
+                "in the slot); reference parameters are modelled as one cell per emission (signal 9: `int&`; `const int&` and `int*` "
+                "only by the fixed `refargs` line). Ids: in `exec` a re-created object gets a new id; OPEN (PropsReuse.lean): the "
+                "specification with vs without listener reuse (so reuse_listener_refines_spec is about the specification WITH reuse), "
+                "and emitter address reuse (the simulation relation is not kept while invalidated frames of the old emitter are on "
+                "the stack) - both kinds of reuse are tested on every line (execR in the driver, `reuse` mode of the harness). "
                 "The audit of no_dangling is decided classically (the audited model is not executable; it is a proof device). "
                 "Emitter/Listener cannot be copied (compiler probe on every run). Single-threaded use. Slot bodies are finite scripts "
                 "indexed by (listener, slot, invocation number). Accesses to a List item after `List::remove` are invisible to ASan "
-                "(nstd pools list items) - the check would only see their effect on the observables. The model mirrors the code WITH "
+                "(nstd pools list items). Harmless rewrites outside the translated subset (`while`, `||`) are reported as a broken "
+                "tie without a failing input. The model and the translated code mirror the sources WITH "
                 "the repair of defect D18 (fixes/callback/0001-*.patch); on the unpatched tree the check reports the D18 inputs.",
         "design_ref": "DESIGN.md 3/C12",
     }
@@ -880,7 +906,9 @@ def copy_rejected(ctx):
 def check(ctx):
     ctx.assumptions += [
         "single-threaded use of Callback (the class has no synchronisation)",
-        "a new object is a new id in the model even when it gets the address of a destroyed object (exercised: after a `reuse` line the harness constructs objects in place, a re-created object has exactly the address of its predecessor)", "the destructors' result is independent of the order of the Map keys; member-function pointers of distinct signals/slots are distinct, of equal size, and == agrees with memcmp (non-virtual members, no identical-code folding)",
+        "a new object is a new id in the model `exec` even when it gets the address of a destroyed object; listener address reuse is proved against the specification with reuse (reuse_listener_refines_spec), emitter address reuse is only tested (execR in the driver on every line; `reuse` lines of the harness: a re-created object has exactly the address of its predecessor)",
+        "member-function pointers of distinct signals/slots are distinct, of equal size, and == agrees with memcmp (checked by the `mfp` line on the harness's pointers; non-virtual members, no identical-code folding)",
+        "the translator's reading of the C++ subset and the container operations of lean/Nstd/Callback/Heap.lean (Map/List themselves are not translated)",
         "slot bodies are deterministic scripts of connect/disconnect/emit/delete actions; allocation never fails",
     ]
     proof_ok = C.proof_stage(ctx, PROPS, [DRIVER], gen=gen, leanchecker=(ctx.tier == "thorough"))
